@@ -29,6 +29,8 @@ for n in ns:
         entry['apply_error'] = o[-300:]
     else:
         shutil.copy('%s/patch%d.diff' % (out, n), '%s/patch%d.diff' % (dst, n))
+        # one cargo build of all harness binaries against the rewritten tree (the per-check builds are then no-ops)
+        sh('VERIF_REPO=%s python3 -c "import sys; sys.path.insert(0, \'tools\'); import common as C; print(C.build_harness_alt(None)[0])"' % wt, cwd='/verif')
         for c in sorted(P.PROPS):
             t0 = time.time()
             rc, o = sh('VERIF_REPO=%s tools/check %s' % (wt, c), cwd='/verif')
